@@ -8,7 +8,13 @@
 (*         fixed operand tails, after fixed prefixes, per header tuple;    *)
 (*  hdr  : header tables (v2-4 NUL-terminated; v5 entry formats of length  *)
 (*         <= FmtLen over all valid content-type/form pairs);              *)
-(*  wide : address sizes 2/4/8 around the top of the address space.        *)
+(*  wide : address sizes 2/4/8 around the top of the address space;        *)
+(*  seq  : directed multi-sequence programs: every concatenation of up to  *)
+(*         3 sequence templates (live rows / live rows then a tombstone or *)
+(*         lower address / a sequence entirely at a tombstone address / a  *)
+(*         bare end_sequence), the last one optionally without its         *)
+(*         end_sequence, for header tuples 1, 3, 5 (these programs are     *)
+(*         longer than the exhaustive length bound of `prog`).             *)
 (* One state = one program; the invariant checks the design-level lemmas   *)
 (* (Dec o Enc = id, as coded = DWARF machine on well-formed programs,      *)
 (* monotone / in-range addresses for every program, sequences consistent)  *)
@@ -236,9 +242,46 @@ InvHdr == p # <<>> =>
            /\ \E hdr \in {EncHeaderBody(H, p.T)} : \E TM \in {TabMeaning(H, p.T)} : Check("hdr", H, hdr, TM, b)
 
 (*------------------------------------------------------------------------*)
+(* seq: p = sequence of template ids; ids 1..NT are closed by end_sequence, *)
+(* ids NT+1..2NT are the same templates without it (only as last element). *)
+SA(a) == IV("set_address", Nat8(a))
+CP == I0("copy")
+AP == IV("advance_pc", Nat8(1))
+ES == I0("end_sequence")
+SeqTemplates == <<
+    <<SA(0), CP>>,                                   \* live at 0
+    <<SA(16), CP, AP, CP>>,                          \* live, two rows
+    <<SA(200), CP>>,
+    <<SA(16), CP, SA(8), CP>>,                       \* live, then a lower address (tombstone mode), a swallowed row
+    <<SA(16), CP, AP, CP, SA(255)>>,                 \* live, then -1
+    <<SA(200), CP, SA(254), CP>>,                    \* live, then -2
+    <<SA(0), CP, SA(255), CP>>,
+    <<SA(255), CP, AP, CP>>,                         \* entirely at a tombstone address
+    <<SA(254), CP, AP, CP>>,
+    <<>> >>                                          \* nothing: a bare end_sequence (two in a row)
+NT == Len(SeqTemplates)
+SeqTuples == {1, 3, 5}
+TemplateBytes(H, k) ==
+    LET t == SeqTemplates[IF k > NT THEN k - NT ELSE k]
+        q == IF k > NT THEN t ELSE Append(t, ES) IN
+    Flatten([j \in 1..Len(q) |-> Enc(H, q[j], <<>>)])
+SeqT == TLCEval([k \in 1..Len(HT) |-> IF k \in SeqTuples THEN [j \in 1..2 * NT |-> TemplateBytes(HT[k], j)] ELSE <<>>])
+InitSeq == h \in (Tuples \cap SeqTuples) /\ p = <<>>
+NextSeq == /\ UNCHANGED <<m, h>> /\ Len(p) < 3 /\ (IF p = <<>> THEN TRUE ELSE p[Len(p)] <= NT)
+           /\ \E k \in 1..2 * NT :
+                /\ (k > NT => k # 2 * NT /\ (Len(p) + 1 <= 2 \/ CoreLen >= 4))    \* open variants: short, or thorough
+                /\ p' = Append(p, k)
+InvSeq == p # <<>> =>
+          \E H \in {HT[h]} : \E b \in {Flatten([j \in 1..Len(p) |-> SeqT[h][p[j]]])} :
+          Check("seq", H, HdrT[h], TabT[h], b)
+
+(*------------------------------------------------------------------------*)
 (* all models in one run: m selects the model *)
 Init == \E md \in Modes : m = md /\ CASE md = "prog" -> InitProg [] md = "opc" -> InitOpc
                                           [] md = "wide" -> InitWide [] md = "hdr" -> InitHdr
+                                          [] md = "seq" -> InitSeq
 Next == CASE m = "prog" -> NextProg [] m = "opc" -> NextOpc [] m = "wide" -> NextWide [] m = "hdr" -> NextHdr
+          [] m = "seq" -> NextSeq
 Inv == CASE m = "prog" -> InvProg [] m = "opc" -> InvOpc [] m = "wide" -> InvWide [] m = "hdr" -> InvHdr
+         [] m = "seq" -> InvSeq
 =============================================================================
